@@ -1,4 +1,14 @@
+//! vh-graph: graph-level engines (planner, executor, plan cache, buffer pool, ...).
+mod plan;
+mod synth;
+
 fn main() {
-    eprintln!("usage: vh-graph <subcommand> [options]");
-    std::process::exit(2);
+    let cmd = std::env::args().nth(1).unwrap_or_default();
+    match cmd.as_str() {
+        "plan" => plan::main_plan(),
+        _ => {
+            eprintln!("usage: vh-graph <plan|...> [options]");
+            std::process::exit(2);
+        }
+    }
 }
